@@ -174,7 +174,7 @@ def run(ctx):
     res = tlc.run_tlc(wd, "MC_Routing", dump=True, heap="6g")
     ctx.add_tlc("Routing", res, ctx.bounds)
     if res.violated:
-        raise common.MachineryError("Routing.tla violates %s:\n%s" % (res.violated, res.stdout[-1500:]))
+        raise common.MachineryError("Routing.tla: " + tlc.describe(res))
     tlc.check_coverage(res, ["TryRoute", "NoRoute"])
     g = graph.Graph.load(res.dot)
     routers = {}
